@@ -147,18 +147,44 @@ int main(int argc, char** argv)
                                 a.form == 2    ? lr.try_lock_shared_for(std::chrono::microseconds(10)) :
                                                  lr.try_lock_shared_until(std::chrono::steady_clock::now() + std::chrono::microseconds(10));
                             if (!h) vrf::violation("oracle:read_handle_null", "{\"form\":" + std::to_string(a.form) + "}");
-                            Win w(*h, false);
+                            // the shared handle is a std::unique_ptr with a releasing deleter: besides * and -> it is used the
+                            // ways such a pointer is - get(), moved into another handle, or turned into a std::shared_ptr whose
+                            // last copy ends the read
+                            std::shared_ptr<const Cell> sp, sp2;
+                            std::unique_ptr<decltype(h)> h2;  // (the handle type has no move assignment: its deleter holds a reference)
+                            const Cell* pc = nullptr;
+                            switch ((a.hold + static_cast<int>(t)) % 4) {
+                                case 1:
+                                    sp = std::move(h);
+                                    sp2 = sp;
+                                    sp.reset();
+                                    pc = sp2.get();
+                                    break;
+                                case 2:
+                                    h2.reset(new decltype(h)(std::move(h)));
+                                    if (h) vrf::violation("oracle:moved_from_shared_handle_not_null", "{}");
+                                    pc = h2->get();
+                                    break;
+                                case 3: pc = h.get(); break;
+                                default: pc = &*h; break;
+                            }
+                            struct View {
+                                const Cell* p;
+                                const Cell* operator->() const { return p; }
+                                const Cell& operator*() const { return *p; }
+                            } hv{pc};
+                            Win w(*hv, false);
                             vrf::tl_vt_label = -static_cast<int>(t) - 1;
-                            h->check("reader");
-                            rr.seen = h->log();
+                            hv->check("reader");
+                            rr.seen = hv->log();
                             strip_initial(rr.seen, "reader");
                             for (int i = 0; i < a.hold; i++) {
                                 if (i % 2) vrf::hyield();
                                 else vrf::user_point();
                             }
-                            h->check("reader (2)");
+                            hv->check("reader (2)");
                             {
-                                auto again = h->log();
+                                auto again = hv->log();
                                 strip_initial(again, "reader (2)");
                                 if (again != rr.seen) vrf::violation("oracle:object_changed_under_shared_handle", "{\"seen\":" + vrf::jnums(rr.seen) + "}");
                             }
